@@ -88,4 +88,37 @@ theorem one_terminator_wins (a0 : Agent) (hi : C13.Inv a0) (calls : List Call) (
   rw [seqExplains_run a0 calls h.atomic] at this
   exact this
 
+theorem seqExplains_take (a0 : Agent) (calls : List Call) (h : SeqExplains a0 calls) (n : Nat) :
+    SeqExplains a0 (calls.take n) := by
+  induction calls generalizing a0 n with
+  | nil => simpa using h
+  | cons c r ih =>
+    cases n with
+    | zero => simp [SeqExplains]
+    | succ k =>
+      obtain ⟨h1, h2⟩ := h
+      rw [List.take_succ_cons]
+      exact ⟨h1, ih _ h2 k⟩
+
+/-- single-critical-section executions are prefix closed: what has happened up to any critical section is itself
+    such an execution (so every statement about them holds at every moment, not only at the end) -/
+theorem prefix_execution (a0 : Agent) (calls : List Call) (h : SingleCritExecution a0 calls) (n : Nat) :
+    SingleCritExecution a0 (calls.take n) :=
+  ⟨fun c hc => h.timed c (List.mem_of_mem_take hc), h.critOrder.sublist (List.take_sublist n calls),
+   seqExplains_take a0 calls h.atomic n⟩
+
+/-- concurrent executions of a NEW agent: at every moment and for every transaction id, the terminal events emitted
+    so far never outnumber the successful Starts so far, whatever Stop/Process/Collect/Close calls raced — and they
+    are equal as soon as a Close has had its critical section -/
+theorem fresh_concurrent_terminals (calls : List Call) (h : SingleCritExecution {} calls) (n : Nat) (id : TID) :
+    C13.totalTerms id ((calls.take n).map (fun c => (c.op, c.ret, c.evs)))
+      ≤ C13.totalStarts id ((calls.take n).map (fun c => (c.op, c.ret, c.evs))) ∧
+    ((Agent.run {} ((calls.take n).map (·.op))).1.closed = true →
+      C13.totalStarts id ((calls.take n).map (fun c => (c.op, c.ret, c.evs)))
+        = C13.totalTerms id ((calls.take n).map (fun c => (c.op, c.ret, c.evs)))) := by
+  have hp := prefix_execution {} calls h n
+  obtain ⟨f1, _, f3⟩ := C13.fresh_history ((calls.take n).map (·.op)) id
+  rw [seqExplains_run {} (calls.take n) hp.atomic] at f1 f3
+  exact ⟨f1, f3⟩
+
 end Stun.C14
